@@ -125,6 +125,7 @@ Section RunId.
         end
     | IBase (OZero i) => let c := zero (fst (geti w i)) in let '(w', _) := push w c in (w', obs 0 c w')
     | IBase (OCopy i) => let c := copy (fst (geti w i)) in let '(w', _) := push w c in (w', obs 0 c w')
+    | IBase (OClone i) => let c := fst (geti w i) in let '(w', _) := push w c in (w', obs 0 c w')
     | IBase (OHash i) => (w, [if hashable (fst (geti w i)) then 0 else 1])
     | IBase OSnapAll => (w, pids w)
     | IBase (OToJson _) | IBase (OFromJson _) | IBase (OJsonRT _) | IBase (OEq _ _ _)
